@@ -33,7 +33,10 @@ namespace Pox.SwitchReq
 open Pox.Generated.SwitchDispatch
 
 inductive Err
-  | key | name | attr | runtime | struct | unmodelled
+  | key | name | attr | runtime | unmodelled
+  /-- `struct.error` while packing a statistics reply part that is longer than a message can be; the `sent` parts before
+      it (all flagged REPLY_MORE) are already on the wire -/
+  | struct (sent : Nat)
   deriving DecidableEq, Repr
 
 structure Port where
@@ -441,11 +444,20 @@ def badActions (command : Nat) (acts : List Act) : Bool :=
   (command == OFPFC_ADD || command == OFPFC_MODIFY || command == OFPFC_MODIFY_STRICT) &&
     acts.any fun a => (actionTable.lookup a.ty).isNone
 
-/-- `_rx_flow_mod`: unknown command, then the action pre-check (nothing installed, the buffer not touched), then the
+/-- largest body of one `ofp_stats_reply`: 65535 minus the 12 header bytes -/
+def partLimit : Nat := 65523
+
+/-- repair C13-5: an ADD / MODIFY / MODIFY_STRICT whose flow could not be reported — its `ofp_flow_stats` entry (88 bytes +
+actions) would not fit into one statistics reply part — is refused with BAD_ACTION/TOO_MANY -/
+def tooManyActions (command : Nat) (acts : List Act) : Bool :=
+  (command == OFPFC_ADD || command == OFPFC_MODIFY || command == OFPFC_MODIFY_STRICT) && decide (88 + actsLenOf acts > partLimit)
+
+/-- `_rx_flow_mod`: unknown command, then the action pre-checks (nothing installed, the buffer not touched), then the
 command's handler and the buffered packet -/
 def rxFlowMod (s : SwitchState) (xid command : Nat) (mk : MKey) (prio cookie flags idle hard outPort : Nat)
     (bufferId : Option Nat) (acts : List Act) : Res :=
   if badActions command acts then .ok (s, [sendError xid OFPET_BAD_ACTION OFPBAC_BAD_TYPE])
+  else if tooManyActions command acts then .ok (s, [sendError xid OFPET_BAD_ACTION OFPBAC_TOO_MANY])
   else rxFlowModBody s xid command mk prio cookie flags idle hard outPort bufferId acts
 
 /-! ### port_mod -/
@@ -518,9 +530,6 @@ def runStats (h : StatsH) (s : SwitchState) (xid : Nat) (req : StatsReq) : Excep
 
 /-! #### multipart replies (repair C13-3): a list body is cut into parts that fit into one message -/
 
-/-- largest body of one `ofp_stats_reply`: 65535 minus the 12 header bytes -/
-def partLimit : Nat := 65523
-
 /-- `_split_stats_body`: greedy; `cur` is the part being filled (reversed), `sz` its encoded size -/
 def splitGo {α} (size : α → Nat) : List α → List α → Nat → List (List α)
   | [], cur, _ => [cur.reverse]
@@ -567,7 +576,7 @@ def rxStats (s : SwitchState) (xid : Nat) (req : StatsReq) : Res :=
       -- `ofp_stats_reply.pack`: the 16-bit length field (`struct.error` when a part is longer than a message can be,
       -- i.e. when a single entry does not fit)
       if (bodyParts body).all (fun b => bodyLen b ≤ partLimit) then .ok (s, errs ++ markParts xid req.stype (bodyParts body))
-      else .error .struct
+      else .error (.struct ((bodyParts body).takeWhile (fun b => bodyLen b ≤ partLimit)).length)
 
 /-! ### dispatch -/
 
